@@ -246,6 +246,11 @@ def gen_disc(r, variant=None, hostile=False, max_files=None, geom=None, total=No
         cuts = sorted(r.shuffle(list(range(2, tracks)))[:nvol - 1])
         starts = [1] + cuts
         ends = cuts + [tracks]
+        # the volume table gives each letter its own start track: the letters need not lie on the disc in alphabetical order
+        if nvol > 1 and r.chance(1, 2):
+            perm = r.shuffle(list(range(nvol)))
+            starts = [starts[j] for j in perm]
+            ends = [ends[j] for j in perm]
         for k, i in enumerate(letters):
             vlen = (ends[k] - starts[k]) * spt
             tot = min(vlen, 1023)
